@@ -273,6 +273,7 @@ type c01Comp struct {
 	hitBackfill bool
 	hitPrune    bool
 	hitPaging   bool // some changesFeed run needed more than one GetChanges call
+	runaway     bool // a changesFeed run had to be stopped
 	bypass      *bypassChannelCache
 	col         *DatabaseCollectionWithUser // carries nothing but ChannelQueryLimit: all changesFeed reads of its receiver
 }
@@ -328,6 +329,11 @@ func (c *c01Comp) feed(sc SingleChannelCache, o c01Op) (rows []c01Row, ok bool) 
 			r.Rm = []uint64{c01CompChan}
 		}
 		rows = append(rows, r)
+		if len(rows) > 4*len(c.B)+20 { // a loop that does not advance: stop it, the monitors report the rows
+			cancel()
+			c.runaway = true
+			break
+		}
 	}
 	calls := c.qh.queries - q0
 	if sc == SingleChannelCache(c.cache) {
@@ -592,6 +598,9 @@ func c01CheckFeed(o c01Op, ob c01Obs, B, F []c01E, quiescent bool) *c01Fail {
 		return &c01Fail{"changes_feed.error_entry", "the feed sent an error entry"}
 	}
 	rows := ob.FRows
+	if len(rows) > 4*len(B)+20 {
+		return &c01Fail{"changes_feed.runaway", fmt.Sprintf("the feed did not terminate: %d rows for %d writes, first rows %s", len(rows), len(B), c01RowsString(rows[:6]))}
+	}
 	safe := SequenceID{TriggeredBy: o.Trig, LowSeq: o.Low, Seq: o.Since}.SafeSequence()
 	for i, r := range rows {
 		if i > 0 && rows[i-1].S >= r.S {
@@ -2228,6 +2237,8 @@ func TestVerifC01(t *testing.T) {
 	rec := vNewRecorder(t, "C01", "C01.C01_Corr")
 	defer rec.Finish()
 	ctx := base.TestCtx(t)
+	c01Wakeup(t, rec) // first: its findings (liveness) lead the report
+	c01Notify(t, rec, ctx)
 	c01Component(t, rec, ctx)
 	c01System(t, rec)
 }
